@@ -51,6 +51,10 @@ GInit ==
     \/ \E s \in Setting, S \in SUBSET Srcs : \E a \in Assignments(s, S) : \E st \in Styles :
            /\ (st = "plain" \/ "file" \in S)
            /\ case = Case(Triples(s, S, a) \cup Ctx(s), {s}, "long", "table", st)
+    \* other KINDS of value: the address given as a host name by the highest-priority source (documented: "IP or domain")
+    \/ \E S \in (SUBSET Srcs) \ {{}} : \E st \in {"plain", "comments_quotes"} :
+           LET top == IF "cli" \in S THEN "cli" ELSE IF "file" \in S THEN "file" ELSE "env" IN
+           case = Case({<<"ip", src, IF src = top THEN "localhost" ELSE Val("ip", src)>> : src \in S}, {"ip"}, "long", "table", st)
     \/ \E s \in Setting : \E form \in {<<"short", "table">>, <<"long", "hyphen">>, <<"long", "root">>} :
            \E S \in {{"cli"}, {"file"}} : \E a \in Assignments(s, S) :
                case = Case(Triples(s, S, a) \cup Ctx(s), {s}, form[1], form[2], "plain")
